@@ -249,6 +249,16 @@ class EvalMixin(CallMixin):
         repo = self.repo
         if isinstance(base, NTuple) and attr in base.names:
             return base.field(attr), (Attr(bref, attr) if bref is not None else None)
+        if isinstance(base, ModRef) and attr == "__dict__" and base.qual in repo.modules:
+            m_ = repo.modules[base.qual]
+            d_ = {}
+            for q_, ci_ in repo.classes.items():
+                if ci_.module is m_ and q_ == f"{base.qual}.{ci_.name}":
+                    d_[ci_.name] = ClassRef(q_)
+            for q_, fi_ in repo.funcs.items():
+                if fi_.module is m_ and fi_.parent is None and fi_.cls is None:
+                    d_[fi_.name] = FuncRef(fi_)
+            return d_, None
         if isinstance(base, ModRef):
             q = f"{base.qual}.{attr}"
             if base.qual in repo.modules or repo.lookup(q) is not None:
